@@ -46,7 +46,10 @@ class C12(Prop):
             ints.update(range(16380, 16390))
         strs = ["14", "25", "26", "29", "30", "13", "16384", "16385", "65536", "32", "8192", "0", "007", "014",
                 "+14", "-14", " 14", "14 ", "1e4", "0x4000", "16k", "", "abc", "１４", "٢٠", "²", "１６３８４",
-                "１４a", "14.0", "2**14", "１4"]
+                "１４a", "14.0", "2**14", "１4",
+                # a valid number followed by more words (units, remarks, a second number): not a number
+                "16 KiB", "20 MiB", "18 pieces", "16384 bytes", "14 15", "18 ; 256 KiB", "18 # exponent", "32768\t#",
+                "15,", "2^18", "16384.", "0b100000000000000", "0o40000", "18e0", "262144L"]
         out = []
         cl = ["C12.accept", "C12.reject", "C12.usable", "C12.optional"]
         for n in sorted(ints):
